@@ -10,8 +10,9 @@
 (* stream the object opened.  After the connection was lost every clone    *)
 (* recovers lazily and on its own: it opens a new stream (the server gives *)
 (* it a new routing id), starts a reply reader for it and keeps using the  *)
-(* shared table.  A family may be dropped and a successor opened on the    *)
-(* same topic: its counter starts again at 0.                              *)
+(* shared table.  Families live on client connections of their own, side   *)
+(* by side or one after the other (a successor's counter starts again at   *)
+(* 0), so request ids of different families collide as a matter of course. *)
 (* The replier sees every request with the routing id the server stamped   *)
 (* on it and may answer at any time, also after the asker has timed out,   *)
 (* lost its connection or gone.                                            *)
@@ -21,13 +22,13 @@
 (***************************************************************************)
 EXTENDS Naturals, Sequences, FiniteSets, TLC
 
-CONSTANTS Families,        \* 1..n, opened in this order, each after its predecessor was dropped
+CONSTANTS Families,        \* requestor objects, each on a client connection of its own
           Clones,          \* clone names of every family
           MaxCalls, MaxCuts,
           CidNeverReused, ReconnectKeepsPending
 
-VARIABLES conn,      \* generation of the client's connection
-          connUp,    \* the client's current connection object is alive (open() itself never re-dials)
+VARIABLES conn,      \* [Families -> Nat] generation of the family's client connection
+          connUp,    \* [Families -> BOOLEAN] that connection object is alive (open() itself never re-dials)
           live,      \* [Families -> "unopened" | "open" | "dropped"]
           sgen,      \* [Families -> [Clones -> Nat]] generation of the stream the clone uses
           scid,      \* [Families -> [Clones -> Nat]] routing id of that stream
@@ -40,7 +41,7 @@ VARIABLES conn,      \* generation of the client's connection
           ncalls, ncuts
 rvars == <<conn, connUp, live, sgen, scid, srvNext, srvLive, pending, nextReq, atRep, calls, ncalls, ncuts>>
 
-RInit == /\ conn = 1 /\ connUp = TRUE
+RInit == /\ conn = [f \in Families |-> 1] /\ connUp = [f \in Families |-> TRUE]
          /\ live = [f \in Families |-> "unopened"]
          /\ sgen = [f \in Families |-> [c \in Clones |-> 0]]
          /\ scid = [f \in Families |-> [c \in Clones |-> 0]]
@@ -53,9 +54,9 @@ Waiting(f) == {k \in 1..ncalls : calls[k].f = f /\ calls[k].status = "waiting"}
 
 \* Requestor::spawn: one stream, shared by all clones
 Open(f) ==
-    /\ connUp /\ live[f] = "unopened" /\ (IF f = 1 THEN TRUE ELSE live[f - 1] = "dropped")
+    /\ connUp[f] /\ live[f] = "unopened"
     /\ live' = [live EXCEPT ![f] = "open"]
-    /\ sgen' = [sgen EXCEPT ![f] = [c \in Clones |-> conn]]
+    /\ sgen' = [sgen EXCEPT ![f] = [c \in Clones |-> conn[f]]]
     /\ scid' = [scid EXCEPT ![f] = [c \in Clones |-> srvNext]]
     /\ srvLive' = srvLive \cup {srvNext} /\ srvNext' = srvNext + 1
     /\ UNCHANGED <<conn, connUp, pending, nextReq, atRep, calls, ncalls, ncuts>>
@@ -63,11 +64,11 @@ Open(f) ==
 \* request() on clone c; a clone whose stream belongs to a lost connection recovers first
 Request(f, c) ==
     /\ live[f] = "open" /\ ncalls < MaxCalls
-    /\ LET stale == sgen[f][c] < conn
+    /\ LET stale == sgen[f][c] < conn[f]
            cid == IF stale THEN srvNext ELSE scid[f][c]
            keep == IF stale /\ ~ReconnectKeepsPending THEN {} ELSE pending[f]
            k == ncalls + 1 IN
-       /\ sgen' = [sgen EXCEPT ![f][c] = conn]
+       /\ sgen' = [sgen EXCEPT ![f][c] = conn[f]]
        /\ scid' = [scid EXCEPT ![f][c] = cid]
        /\ srvNext' = IF stale THEN srvNext + 1 ELSE srvNext
        /\ srvLive' = IF stale THEN srvLive \cup {cid} ELSE srvLive
@@ -80,14 +81,14 @@ Request(f, c) ==
                       ELSE IF calls[j].f = f /\ calls[j].status = "waiting" /\ ~(\E p \in keep : p[2] = j)
                            THEN [calls[j] EXCEPT !.status = "failed"] ELSE calls[j]]
        /\ ncalls' = k
-    /\ connUp' = TRUE          \* a recovering clone re-dials if nobody has yet
+    /\ connUp' = [connUp EXCEPT ![f] = TRUE]          \* a recovering clone re-dials if nobody has yet
     /\ UNCHANGED <<conn, live, ncuts>>
 
 \* the replier answers request x; the server routes by routing id, the reader by request id
 Answer(x) ==
     /\ x \in atRep
     /\ atRep' = atRep \ {x}
-    /\ LET owners == {<<f, c>> \in Families \X Clones : live[f] = "open" /\ sgen[f][c] = conn /\ scid[f][c] = x.cid} IN
+    /\ LET owners == {<<f, c>> \in Families \X Clones : live[f] = "open" /\ sgen[f][c] = conn[f] /\ scid[f][c] = x.cid} IN
        IF x.cid \in srvLive /\ owners # {}
        THEN LET f == (CHOOSE o \in owners : TRUE)[1]
                 hit == {p \in pending[f] : p[1] = x.rid} IN
@@ -113,11 +114,11 @@ ServerForgets(ids) ==
     /\ srvLive' = srvLive \ ids
     /\ srvNext' = IF ~CidNeverReused /\ srvLive \ ids = {} THEN 0 ELSE srvNext
 
-\* the connection is lost (the server stays up and sees every requestor stream end)
-Cut == /\ ncuts < MaxCuts /\ \E f \in Families : live[f] = "open"
-       /\ conn' = conn + 1 /\ ncuts' = ncuts + 1 /\ connUp' = FALSE
-       /\ ServerForgets({scid[f][c] : <<f, c>> \in {fc \in Families \X Clones : live[fc[1]] = "open"}})
-       /\ UNCHANGED <<live, sgen, scid, pending, nextReq, atRep, calls, ncalls>>
+\* family f's connection is lost (the server stays up and sees every requestor stream of it end)
+Cut(f) == /\ ncuts < MaxCuts /\ live[f] = "open"
+          /\ conn' = [conn EXCEPT ![f] = @ + 1] /\ ncuts' = ncuts + 1 /\ connUp' = [connUp EXCEPT ![f] = FALSE]
+          /\ ServerForgets({scid[f][c] : c \in Clones})
+          /\ UNCHANGED <<live, sgen, scid, pending, nextReq, atRep, calls, ncalls>>
 
 \* all handles of the family are dropped (none of its calls is waiting)
 Drop(f) == /\ live[f] = "open" /\ Waiting(f) = {}
@@ -128,7 +129,7 @@ Drop(f) == /\ live[f] = "open" /\ Waiting(f) = {}
 RNext == \/ \E f \in Families : Open(f) \/ Drop(f) \/ \E c \in Clones : Request(f, c)
          \/ \E x \in atRep : Answer(x)
          \/ \E k \in 1..ncalls : Timeout(k)
-         \/ Cut
+         \/ \E f \in Families : Cut(f)
 RSpec == RInit /\ [][RNext]_rvars
 
 \* C04: a request() that returns Ok returns the reply produced for exactly that request
@@ -139,6 +140,6 @@ Inv_NoCollateralFailure == \A k \in 1..ncalls : calls[k].status # "failed"
 \* and a routing id still referred to by a held request is never given to somebody else
 Inv_CidUnique ==
     \A f1, f2 \in Families : \A c1, c2 \in Clones :
-        (live[f1] = "open" /\ live[f2] = "open" /\ sgen[f1][c1] = conn /\ sgen[f2][c2] = conn
-         /\ scid[f1][c1] = scid[f2][c2]) => (f1 = f2 /\ sgen[f1][c1] = sgen[f2][c2])
+        (live[f1] = "open" /\ live[f2] = "open" /\ sgen[f1][c1] = conn[f1] /\ sgen[f2][c2] = conn[f2]
+         /\ scid[f1][c1] = scid[f2][c2]) => f1 = f2
 =============================================================================
